@@ -149,7 +149,9 @@ def _case(draw):
     # calls with the same argument objects (data array, range array), read-only arguments, a call with other arguments first
     case["calls"] = draw(st.sampled_from([1, 2, 3, 3]))
     case["ro"] = draw(st.sampled_from(["", "", "", "d", "m", "dm"]))
-    case["prior"] = draw(st.sampled_from([0, 0, 1]))
+    # 1: a call with entirely different arguments first; 2: a call on an array of the SAME shape in the other float type first
+    # (the destriping loop hands over equally shaped chunks again and again: nothing of one call may survive into the next)
+    case["prior"] = draw(st.sampled_from([0, 0, 1, 2]))
     if case["prior"]:
         case["prior_M"] = draw(st.sampled_from([1, 3, 5, 9, 15, 31]))
     if case["calls"] > 1:
@@ -772,7 +774,15 @@ def _run_data(case, ctx):
         for k in range(2, ncalls + 1):
             if (exp_false & (np.sum(ax > Tc * (0.98 ** (k - 1) * (1 + band)), axis=0) >= need)).any():
                 ctx.label(f"call_{k}_sees_channels_between_{0.98 ** k:.3f}_and_0.98_of_range")
-    if case.get("prior"):
+    if case.get("prior") == 2:
+        other = np.float32 if x.dtype == np.float64 else np.float64
+        xp = (np.random.default_rng([int(case["seed"]), 1616]).uniform(-0.1, 0.1, x.shape)).astype(other)
+        ctx.label("prior_call_same_shape_other_dtype")
+        rp = ctx.call("C16.call", sat, xp, 1.0, v_per_sec=1e12, fs=1.0, proportion=0.5, mute_window_samples=m)
+        if rp is ctx.CRASH or not _check_types(ctx, rp, ns):
+            return
+        ctx.check(not rp[0].any(), "C16.flags", "a quiet recording (|x| <= 0.1 of full scale, slew limit off) has flagged samples")
+    elif case.get("prior"):
         if not _prior_call(case, ctx, sat):
             return
     x0, maxv0 = _snapshot(x), _snapshot(maxv)
